@@ -39,6 +39,7 @@ class Shape(Universe):
             it = m.I['I0']
             o.append(ItrNext('I0', 'new'))
             o.append(ItrNext('I0', 'into'))
+            o.append(ItrNext('I0', 'empty'))
             if len(it.pending) <= 1 or len(set(repr(sorted(q.items())) for q in it.pending)) == 1:
                 o.append(ItrNext('I0', 'null'))
             items = ITEMS[:self.nitems]
@@ -52,6 +53,7 @@ class Shape(Universe):
             o.append(ItrUpdate('I0', (('_zz', 'V1'), (items[0], 'V2'))))
             o.append(ItrUpdate('I0', ((items[0].upper(), 'V2'),)))
             o.append(ItrRemove('I0'))
+            o.append(ItrOpenSecond('L2', 'I1'))
             o.append(ItrEnd('I0', 'close'))
             o.append(ItrEnd('I0', 'abort'))
         else:
@@ -100,7 +102,7 @@ def main():
     print('  shapes=%d %s' % (len(per), tot), flush=True)
     return rep.finish({'states': tot['states'], 'transitions': tot['transitions'], 'traces_validated_against_impl': tot['transitions'],
                        'samples': samples[:6] or [['(none)']], 'depth_bound': depth, 'shapes': per, 'exhaustive': exhaustive,
-                       'explanation': 'all sequences of get_packets/next (new, NULL, into an existing packet)/update (8 packet shapes)/remove/close/abort and follow-up calls up to the depth bound, for every loop shape; iterator life cycle of DESIGN.md Appendix B as reference'},
+                       'explanation': 'all sequences of get_packets/next (new, NULL, into an existing packet with foreign items, into an empty packet)/update (8 packet shapes)/remove/close/abort, a second get_packets while one iterator is open (refused, and harmless) and follow-up calls up to the depth bound, for every loop shape; iterator life cycle of DESIGN.md Appendix B as reference'},
                       ['delivery order is unspecified: delivered packets are matched by content', 'update/remove after CIF_FINISHED may answer CIF_MISUSE or act on the last delivered packet'])
 
 
